@@ -222,7 +222,10 @@ def run_impl(ctx, cases, lines):
         env = dict(vc.ENV)
         env["TZ"] = TZS[tz]
         hl = [vc.show([cases[i][0], cases[i][1], cases[i][2], cases[i][3], cases[i][4], treqs[i]]) for i in idx]
-        got = vc.run_lines([exe], hl, timeout_per_batch=600, env=env)
+        # a parser bug can loop forever while allocating: cap the child's address space
+        # and wall clock so that such a case is reported as abort/hang, not as a dead machine
+        cmd = ["/bin/bash", "-c", "ulimit -v 4000000; exec \"$0\"", exe]
+        got = vc.run_lines(cmd, hl, timeout_per_batch=240, env=env)
         for i, g in zip(idx, got):
             res[i] = g
     return res
